@@ -252,8 +252,16 @@ def check_layout_corr(ctx: Ctx, inp: dict) -> None:
     try:
         d2, _ = FR.fruchterman_reingold_layout(deepcopy(die), kappa, max_iter=iters)
     except Exception as ex:  # the layout has no failing path for kappa > 0
-        ctx.spec_fail("operation-raised", inp, {"op": "fruchterman_reingold_layout", "exception": type(ex).__name__, "msg": str(ex)[:100]},
-                      size=len(inp["mods"]))
+        if kappa > 0:
+            ctx.spec_fail("operation-raised", inp, {"op": "fruchterman_reingold_layout", "exception": type(ex).__name__, "msg": str(ex)[:100]},
+                          size=len(inp["mods"]))
+            return
+        # kappa = 0 is outside the property (k = 0 divides by zero): the model must raise the same exception class
+        rep = ctx.model([f"F layout {f2hex(kappa)} {iters} {line0}"])
+        ctx.case("layout-kappa0", (kappa, iters, line0), True)
+        ctx.count("kappa0-raised-" + type(ex).__name__)
+        if rep is not None and rep[0] != "err:" + type(ex).__name__:
+            ctx.disagree("layout-kappa0", inp, "err:" + type(ex).__name__, rep[0][:200], size=len(inp["mods"]))
         return
     got = centres(d2)
     if snapshot(die) != snap0 or centres(die) != cen0:
@@ -281,6 +289,9 @@ def check_layout_corr(ctx: Ctx, inp: dict) -> None:
     ctx.case("layout", (inp["W"], inp["H"], kappa, iters, line0), nontriv,
              sample={"n": len(inp["mods"]), "iters": iters, "kappa": kappa})
     if out is None:
+        return
+    if out[0].startswith("err"):
+        ctx.disagree("layout", inp, "returned", out[0], size=len(inp["mods"]))
         return
     mod = parse_centres(out[0])
     tol = 1e-9 * size
@@ -439,7 +450,7 @@ def check_force(ctx: Ctx, inp: dict, corr: bool) -> None:
     if centres(out2) != got:
         ctx.spec_fail("force:deterministic", inp, {}, size=n)
     # model side
-    reqs = ["F argmin " + str(len(table)) + " " + " ".join(f2hex(c) for c in table)]
+    reqs = ["F argmin " + f2hex(math.inf) + " " + str(len(table)) + " " + " ".join(f2hex(c) for c in table)]
     if corr:
         reqs.append(f"F force {iters} {line0}")
     rep = ctx.model(reqs)
@@ -478,10 +489,27 @@ def check_clamp(ctx: Ctx) -> None:
         x = rng.choice([rng.uniform(-40, 40), W / 2, -W / 2, math.inf, -math.inf, math.nan, 0.0])
         reqs.append(f"F clamp {f2hex(-W / 2)} {f2hex(W / 2)} {f2hex(x)}")
         exp.append(f2hex(min(W / 2, max(-W / 2, x))))
+    # the selection loop of force_algorithm on arbitrary cost lists, inf / NaN included (from best_cost = inf)
+    for _ in range(ctx.n(60, 400)):
+        cs = [rng.choice([rng.uniform(0, 50), rng.uniform(0, 50), float(rng.randint(0, 5)), math.inf, math.nan, -math.inf])
+              for _ in range(rng.randint(0, 12))]
+        if rng.random() < 0.5:
+            cs = [c if math.isfinite(c) else float(rng.randint(0, 5)) for c in cs]
+        best, best_cost = None, math.inf
+        for i, c in enumerate(cs):
+            if c < best_cost:
+                best, best_cost = i, c
+        reqs.append(f"F argmin {f2hex(math.inf)} {len(cs)} " + " ".join(f2hex(c) for c in cs))
+        exp.append("none" if best is None else str(best))
     rep = ctx.model(reqs)
     if rep is None:
         return
     for r, e, q in zip(rep, exp, reqs):
+        if " argmin " in q:
+            ctx.case("argmin", q, True)
+            if r != e:
+                ctx.disagree("argmin", {"req": q}, e, r, size=1)
+            continue
         ctx.case("clamp", q, True)
         if r != e:
             ctx.disagree("clamp", {"req": q}, e, r, size=1)
@@ -502,7 +530,8 @@ def run(ctx: Ctx) -> None:
                 "a soft module seeded with the Point object of a fixed module or pin / two movable modules sharing one Point; kappa from the 0.4..1.5 table or uniform in (0.05, 3). Streams: `layout` = max_iter 1 (2/3 of cases) "
                 "or 2..5 vs the Float model to 1e-9*size (+ wire length / overlap of the result); `long-run` = 6..30 (thorough 100) "
                 "iterations checked through the clauses; `force` = force_algorithm with 1..12 iterations, cost table recomputed, "
-                "model compared for <= 3 iterations; `clamp` = scalar clamp incl. NaN/inf. Non-trivial = at least one movable module.")
+                "model compared for <= 3 iterations; `clamp` = scalar clamp incl. NaN/inf; `argmin` = the selection loop on cost lists "
+                "incl. inf/NaN; `layout-kappa0` = kappa = 0 (outside the property): same exception class as the model. Non-trivial = at least one movable module.")
     ctx.assumptions += [
         "kappa > 0 (kappa = 0 divides by zero) and at least one module",
         "input centres of fixed modules lie inside the die (then 'every centre inside the die' follows from 'fixed not moved')",
@@ -519,6 +548,8 @@ def run(ctx: Ctx) -> None:
         inp["iters"] = 1 if rng.random() < 0.66 else rng.randint(2, 5)
         if rng.random() < 0.04:
             inp["iters"] = 0
+        if rng.random() < 0.05:
+            inp["kappa"] = 0.0  # excluded by the property; the model must raise where Python does
         inp["stream"] = "layout"
         ctx.count(f"layout-iters-{min(inp['iters'], 2)}{'+' if inp['iters'] >= 2 else ''}")
         ctx.count(f"modules-{len(inp['mods'])}")
